@@ -351,8 +351,9 @@ func NewRig(setting pokertable.TableSetting, be Backend, interval int) (*Rig, er
 	r.te = pokertable.NewTableEngine(opts, pokertable.WithGameBackend(be))
 	r.hk = pokertable.VerifHooksOf(r.te)
 	r.te.OnTableUpdated(func(t *pokertable.Table) {
-		c, err := t.Clone()
-		if err != nil {
+		// the engine hands out its live table; another goroutine may be mutating it while we marshal
+		c := safeClone(t)
+		if c == nil {
 			return
 		}
 		r.mu.Lock()
@@ -396,6 +397,27 @@ func NewRig(setting pokertable.TableSetting, be Backend, interval int) (*Rig, er
 		return r, err
 	}
 	return r, nil
+}
+
+func safeClone(t *pokertable.Table) (c *pokertable.Table) {
+	for try := 0; try < 4; try++ {
+		func() {
+			defer func() {
+				if e := recover(); e != nil {
+					c = nil
+				}
+			}()
+			cl, err := t.Clone()
+			if err == nil {
+				c = cl
+			}
+		}()
+		if c != nil {
+			return c
+		}
+		time.Sleep(100 * time.Microsecond)
+	}
+	return nil
 }
 
 func (r *Rig) snapCount() int {
@@ -557,9 +579,9 @@ func (r *Rig) gateObs() string {
 // fullObs = table (given snapshot or live) + seat manager + gate + released flag, read now
 func (r *Rig) fullObs(t *pokertable.Table) string {
 	if t == nil {
-		c, err := r.live().Clone()
-		if err != nil {
-			return "tb obs error=" + err.Error()
+		c := safeClone(r.live())
+		if c == nil {
+			return "tb obs error=clone"
 		}
 		t = c
 	}
